@@ -520,6 +520,45 @@ def run2(x):
 ''', [("run", [(0, 1), (2, 5)]), ("run2", [(1,)])])
 
 
+# ---- methods: an overridden method is a virtual call (never inlined); an inherited, never overridden one is a helper
+case('''
+class Base:
+    def describe(self):
+        return "I am " + self._kind()
+    def _kind(self):
+        return "base"
+
+class Child(Base):
+    def _kind(self):
+        return "child"
+
+class Plain(Base):
+    pass
+
+class Store:
+    @staticmethod
+    def _check(x):
+        if not isinstance(x, str):
+            raise TypeError("key must be a str")
+    def _norm(self, x):
+        y = x.strip()
+        return y.upper()
+
+class KV(Store):
+    def get(self, x):
+        self._check(x)
+        k = self._norm(x)
+        return k
+
+def run(k):
+    obj = Child() if k else Plain()
+    return obj.describe()
+
+def run2(x):
+    return KV().get(x)
+''', [("run", [(0,), (1,)]), ("run2", [(" ab ",), (5,)])])
+
+
 def outcome(ns, fn, args):
     import copy
     try:
